@@ -672,6 +672,98 @@ SECTIONS
 
 var _ = packedLD
 
+// part legacy: addresses of a real executable (the pprof binary itself) arriving through a legacy
+// text profile whose memory map lists the text mapping in 2-3 adjacent pieces with consecutive file
+// offsets (the first at offset 0), as /proc/<pid>/maps does after parts of the text were remapped.
+// pprof merges the pieces; the merged mapping must still translate every address to the symbol
+// the executable's own symbol table names.
+func runLegacy(c *harness.Ctx) harness.Result {
+	r := c.Rng
+	exe := filepath.Join(os.Getenv("VERIF_BIN"), "pprof")
+	ef, err := elf.Open(exe)
+	if err != nil {
+		return harness.Result{Verdict: harness.Inconclusive, Detail: "pprof executable not available: " + err.Error()}
+	}
+	defer ef.Close()
+	var text *elf.Prog
+	for _, ph := range ef.Progs {
+		if ph.Type == elf.PT_LOAD && ph.Flags&elf.PF_X != 0 {
+			text = ph
+		}
+	}
+	syms, _ := ef.Symbols()
+	if text == nil || len(syms) == 0 || text.Filesz < 4*pg {
+		return harness.Result{Verdict: harness.Inconclusive, Detail: "unexpected layout of the pprof executable"}
+	}
+	var funcs []elf.Symbol
+	for _, sy := range syms {
+		if elf.ST_TYPE(sy.Info) == elf.STT_FUNC && sy.Size > 16 && sy.Value >= text.Vaddr && sy.Value+sy.Size <= text.Vaddr+text.Filesz && strings.HasPrefix(sy.Name, "github.com/google/pprof/profile.") && !strings.ContainsAny(sy.Name, " (") {
+			funcs = append(funcs, sy)
+		}
+	}
+	if len(funcs) < 8 {
+		return harness.Result{Verdict: harness.Inconclusive, Detail: "too few function symbols"}
+	}
+	start := text.Vaddr &^ (pg - 1)
+	limit := (text.Vaddr + text.Filesz + pg - 1) &^ (pg - 1)
+	off := text.Off &^ (pg - 1)
+	npages := int((limit - start) / pg)
+	cuts := []uint64{start}
+	for k, n := 0, 1+r.Intn(2); k < n; k++ {
+		cuts = append(cuts, start+uint64(1+r.Intn(npages-1))*pg)
+	}
+	cuts = append(cuts, limit)
+	sort.Slice(cuts, func(i, j int) bool { return cuts[i] < cuts[j] })
+	var sb strings.Builder
+	want := map[string]int{}
+	sb.WriteString("heap profile: 8: 8 [8: 8] @ heapprofile\n")
+	for k := 0; k < 8; k++ {
+		f := funcs[r.Intn(len(funcs))]
+		addr := f.Value + uint64(r.Intn(int(f.Size)))
+		fmt.Fprintf(&sb, "1: 1 [1: 1] @ %#x\n", addr+1) // legacy stacks hold return addresses: pprof steps back by one
+		want[f.Name]++
+	}
+	sb.WriteString("\nMAPPED_LIBRARIES:\n")
+	for i := 0; i+1 < len(cuts); i++ {
+		if cuts[i] == cuts[i+1] {
+			continue
+		}
+		fmt.Fprintf(&sb, "%08x-%08x r-xp %08x 00:00 0 %s\n", cuts[i], cuts[i+1], off+(cuts[i]-start), exe)
+	}
+	doc := filepath.Join(c.Tmp, "legacy.heap")
+	os.WriteFile(doc, []byte(sb.String()), 0o644)
+	drv.IsolateEnv(c.Tmp)
+	bu := &binutils.Binutils{}
+	ui := &drv.UI{}
+	sesn := &drv.Session{Flags: &drv.Flags{Bools: map[string]bool{"proto": true, "addresses": true}, Strs: map[string]string{"output": "out", "symbolize": "fastlocal"}, Args: []string{doc}},
+		Obj: bu, Sym: &symbolizer.Symbolizer{Obj: bu, UI: ui}, UI: ui}
+	rr := sesn.Run()
+	res := harness.Result{NonTrivial: true, Sig: fmt.Sprintf("legacy cuts=%x", cuts), Sample: map[string]any{"pieces": fmt.Sprintf("%x", cuts)}}
+	if rr.Panic != "" || rr.Err != nil {
+		return harness.Violation("pprof -symbolize=fastlocal -proto on the legacy profile failed: %v %s %v\n%s", rr.Err, rr.Panic, ui.Errs, sb.String())
+	}
+	q, err := profile.ParseData(sesn.Writer.Files["out"].Bytes())
+	if err != nil {
+		return harness.Violation("saved profile unparseable: %v", err)
+	}
+	c.Stat("legacy_split_text_profiles", 1)
+	got := map[string]int{}
+	for _, sm := range q.Sample {
+		name := "<unsymbolized>"
+		if len(sm.Location) >= 1 {
+			if n := len(sm.Location[0].Line); n > 0 && sm.Location[0].Line[n-1].Function != nil {
+				name = sm.Location[0].Line[n-1].Function.SystemName
+			}
+		}
+		got[name]++
+	}
+	if fmt.Sprint(got) != fmt.Sprint(want) {
+		res.Verdict = harness.Violated
+		res.Detail = fmt.Sprintf("text mapping listed in the pieces %x (offsets consecutive from %#x): samples per function after -symbolize=fastlocal are %v, the executable's symbol table says %v (ui: %v)", cuts, off, got, want, ui.Errs)
+	}
+	return res
+}
+
 func runReal(c *harness.Ctx) harness.Result {
 	v := variants[c.Index%len(variants)]
 	src := filepath.Join(c.Tmp, "t.c")
@@ -899,6 +991,7 @@ func init() {
 			{Name: "protocol", Quick: 300, Thor: 6000, Run: runProtocol},
 			{Name: "nm", Quick: 600, Thor: 20000, Run: runNM},
 			{Name: "real", Quick: 11, Thor: 44, Run: runReal},
+			{Name: "legacy", Quick: 12, Thor: 200, Run: runLegacy},
 		},
 		MinNonTrivial: func(string) int { return 500 },
 	})
